@@ -2775,10 +2775,33 @@ class Env(cabc.MutableMapping):
         """
         if key in local:
             return local[key]
-        try:
-            return self[key]
-        except KeyError:
-            return NotImplemented
+        # No thread-local override existed: there is nothing to put back
+        # into the thread-local layer, the override is simply dropped on
+        # exit. (Capturing the *visible* value here instead would leave it
+        # behind as a permanent thread-local override - turning a default
+        # or an alias-overlay value into an explicitly set variable and
+        # making later plain assignments from this thread invisible to
+        # other threads.)
+        return NotImplemented
+
+    def _restore_after_swap(self, key, captured):
+        """Undo one swapped key on scope exit (see ``_capture_for_swap``)."""
+        if captured is not NotImplemented:
+            self._set_item(key, captured, thread_local=True)
+            return
+        self._d.del_locally(key)
+        self._detyped = None
+        if self.get("UPDATE_OS_ENVIRON") and self._orig_env is not None:
+            # re-mirror whatever is visible now that the override is gone
+            val = self._d.get(key, DELETE_VAR)
+            detyper = self.get_detyper(key)
+            deval = None
+            if val is not DELETE_VAR and detyper is not None:
+                deval = detyper(val)
+            if deval is not None:
+                os_environ[key] = deval
+            else:
+                os_environ.pop(key, None)
 
     @contextlib.contextmanager
     def swap(self, other=None, overlay=None, **kwargs):
@@ -2816,10 +2839,7 @@ class Env(cabc.MutableMapping):
                 self._overlay_stack.pop()
             # restore the values
             for k, v in old.items():
-                if v is NotImplemented:
-                    self._del_item(k, thread_local=True)
-                else:
-                    self._set_item(k, v, thread_local=True)
+                self._restore_after_swap(k, v)
             if exception is not None:
                 # plain re-raise to preserve __cause__/__context__ chains
                 raise exception
